@@ -68,7 +68,9 @@ type Ctx struct {
 	funcByID map[int]interface{}
 	strIDs   map[string]int
 
+	timeoutFactor float64 // contract option `opt slow=<factor>`: solver time multiplier for a known-heavy function
 	sizeHints  string
+	nilHints   string
 	lateDecls  []string
 	queries    []Query
 	usesLambda bool
